@@ -11,7 +11,7 @@ Record c11case := {
   c11_parsed : result (list c11row);   (* what Lexicon::parse_csv returned *)
   c11_stored : option (result (list (list N)));  (* None: not compiled for this case; features stored in a dictionary compiled from the same rows, by word id *)
   c11_user : option (result (list (list N)));    (* the same rows loaded as a user lexicon: features by user word id *)
-  c11_homs : list (list N * list N)    (* compiled cases: every distinct surface tokenized as a sentence, with the word ids of the system-lexicon nodes spanning it, in lattice order *)
+  c11_homs : list (list N * list N)    (* compiled cases: every distinct surface tokenized as a sentence, with (word id * 16 + left id * 4 + right id) of the system-lexicon nodes spanning it, in lattice order (the compiled rows use ids mod 4) *)
 }.
 
 Definition row_eqb (a : lexent) (b : c11row) : bool :=
@@ -56,7 +56,7 @@ Definition c11_stored_ok (c : c11case) : bool :=
 Fixpoint ids_with (sf : list N) (rows : list c11row) (i : N) : list N :=
   match rows with
   | [] => []
-  | r :: t => (if list_eqb N.eqb (r_surface r) sf then [i] else []) ++ ids_with sf t (N.succ i)
+  | r :: t => (if list_eqb N.eqb (r_surface r) sf then [i * 16 + (r_lid r mod 4) * 4 + r_rid r mod 4] else []) ++ ids_with sf t (N.succ i)
   end.
 Definition c11_homs_ok (c : c11case) : bool :=
   let kept := filter (fun r => match r_surface r with [] => false | _ => true end) (c11_source c) in
